@@ -24,7 +24,7 @@ RULE = ('cases are composition histories of 3-9 steps (new message, add signer w
         'two signers, or a compressed signed message, or a hop was judged by the grammar recogniser; distinct = distinct (step '
         'kinds, signer counts, compression, body class) tuples')
 TIERS = {'quick': {'runs': 4000, 'budget_s': 80}, 'thorough': {'runs': 200000, 'budget_s': 1500}}
-PROBES = ('signers_1', 'signers_2', 'signers_3plus', 'signer_created_earlier', 'signers_same_second', 'export_midway', 'compressed_signed',
+PROBES = ('copy_exported', 'signers_1', 'signers_2', 'signers_3plus', 'signer_created_earlier', 'signers_same_second', 'export_midway', 'compressed_signed',
           'encrypted_then_signed', 'signed_then_encrypted', 'hop_armor', 'hop_reframed', 'hop_marker', 'from_file', 'sensitive', 'non_ascii_filename',
           'long_filename', 'ref_old_format', 'ref_partial', 'ref_signed_onepass', 'body_big', 'format_text', 'format_utf8')
 FILENAMES = ['note.txt', 'a', 'data.bin', 'résumé.txt', 'файл.txt', 'n' * 255, 'spaces in name.txt']
@@ -315,6 +315,16 @@ def _export_check(ctx, pgpy, msg, spec, content, nsig, what):
     except Exception as e:
         ctx.viol('C20:export-raises:%s' % type(e).__name__, '%s: bytes(message) raises: %s (filename %r)' % (what, e, spec['filename'][:20]))
         return
+    # a copy of the message is the same message
+    ctx.checked()
+    try:
+        craw = bytes(copy.copy(msg))
+    except Exception as e:
+        craw = None
+        ctx.viol('C20:copy-export-raises:%s' % type(e).__name__, '%s: bytes(copy.copy(message)) raises: %s' % (what, e))
+    if craw is not None and craw != raw:
+        ctx.viol('C20:copy-export-differs', '%s: a copy of the message exports other octets (%d vs %d)' % (what, len(craw), len(raw)))
+    ctx.probe('copy_exported')
     sh = grammar_check(ctx, what, raw, expect_sigs=nsig)
     if sh.literal is None:
         return
